@@ -1120,3 +1120,107 @@ class Tree_replace_multiple_generator(tree_contracts.Tree_replace_multiple):
         out.append(("a_child_change_without_argument_change_rederives_the_sources",
                     Implies(And(child_changed, Not(arg_changed)), z3.BoolVal(reder is not None and reder[0] is r and srcs is reder[1]))))
         return out
+
+
+# ------------------------------------------------------------------------------------------------ IterativeParser._collapse (C04 side lemma)
+
+Helper = z3.Function("IsHelperSymbol", I, B)            # the symbol is an internal helper nonterminal (<__...>)
+Clean = z3.Function("NoHelperSymbolAtOrBelow", I, B)    # tree node: neither it nor any descendant carries a helper symbol
+CleanSeq = z3.Function("AllClean", IS, B)               # every tree of the sequence is Clean
+PARSER = "language/grammar/parser/iterative_parser.py"
+
+
+def _collapse_defs(cx):
+    """definition of AllClean over sequences (introduction rules) and of Clean for a new node"""
+    w, w2 = z3.Const("cl_w", IS), z3.Const("cl_w2", IS)
+    cx.assume(CleanSeq(EMPTY))
+    cx.assume(ForAll([w, w2], Implies(And(CleanSeq(w), CleanSeq(w2)), CleanSeq(z3.Concat(w, w2))), patterns=[CleanSeq(z3.Concat(w, w2))]))
+
+
+def _col_havoc(cx, env, i):
+    w = z3.Const(cx._name("reduced_sofar"), IS)
+    env["reduced"] = kids_list(cx, w, "reduced")
+    env["reduced"].fresh = True
+
+
+def _col_inv(cx, env, i):
+    l = env["reduced"]
+    seq = l.ghost.get("seq") if isinstance(l, SList) else (EMPTY if isinstance(l, SList) and l.concrete and not l.items else None)
+    if isinstance(l, SList) and l.concrete and not l.items:
+        seq = EMPTY
+    if seq is None:
+        raise Unsupported("`reduced` is not a sequence of trees the contract can read")
+    return [("everything_collected_so_far_is_free_of_helper_symbols", CleanSeq(seq))]
+
+
+@register
+class Parser_collapse_rec(Contract):
+    """C04 side lemma: the trees returned by _collapse contain no internal helper symbol (<__...>): a helper node is replaced
+    by its collapsed children, every other node is rebuilt over its collapsed children"""
+    target = f"{PARSER}:IterativeParser._collapse"
+    properties = ("C04",)
+    float_mode = "real"
+    cases = ("nonterminal", "terminal")
+    loops = {0: Loop(0, iter_text="tree.children", inv=_col_inv, havoc=_col_havoc, modifies=("reduced", "child", "rec_reduced"))}
+
+    def inputs(self, cx, case):
+        cx.ghost["inline_ok"] = set(tree_contracts.INLINE_OK) | {"language/symbols/symbol.py:Symbol.value", "language/tree_value.py:TreeValue.__str__",
+                                                                 "language/tree.py:DerivationTree.__init__", "language/tree.py:DerivationTree.sources@setter",
+                                                                 "language/tree.py:DerivationTree.read_only"}
+        tv.setup(cx)
+        cx.ghost["inline_ok"] |= set(tree_contracts.INLINE_OK) | {"language/symbols/symbol.py:Symbol.value", "language/tree_value.py:TreeValue.__str__",
+                                                                  "language/tree.py:DerivationTree.__init__", "language/tree.py:DerivationTree.sources@setter",
+                                                                  "language/tree.py:DerivationTree.read_only"}
+        _collapse_defs(cx)
+        t = SObj("DerivationTree", {}, fresh=False, label="tree")
+        t.ident = cx.const("tree_id", I)
+        sym = SObj("NonTerminal" if case == "nonterminal" else "Terminal", {}, fresh=False, label="tree.symbol")
+        sym.ident = cx.const("symbol_id", I)
+        sym.fields["@hash"] = SInt(sym.ident)
+        name = tv.tree_value(cx, "symbol_name", "str")
+        name.fields["_trailing_bits"] = SList([])
+        sym.fields["_value"] = name
+        cx.ghost["name_text"] = name.fields["_value"].term
+        cx.assume(Helper(sym.ident) == z3.PrefixOf(z3.StringVal("<__"), cx.ghost["name_text"]))      # definition of "helper symbol" for nonterminals
+        t.fields["_symbol"] = sym
+        t.fields["_children"] = kids_list(cx, z3.Const("tree_children", IS), "tree.children")
+        t.fields["_sources"] = cx.opaque_list(cx.int("n_sources", lo=0))
+        t.fields["read_only"] = cx.bool("read_only")
+        t.fields["_sender"] = None
+        t.fields["_recipient"] = None
+        t.fields["origin_repetitions"] = cx.opaque_list(cx.int("n_origin", lo=0))
+        p = SObj("IterativeParser", {}, fresh=False, label="self")
+        p.ident = cx.const("parser_id", I)
+        cx.ghost["case"] = case
+        return {"self": p, "tree": t}
+
+    # call-site direction (recursion): a sequence of clean trees
+    def fresh_result(self, cx, a):
+        w = z3.Const(cx._name("collapsed"), IS)
+        cx.assume(CleanSeq(w))
+        l = kids_list(cx, w, "collapsed")
+        l.fresh = True
+        return l
+
+    def ensures(self, cx, a, r):
+        if cx.ghost.get("call_site"):
+            return []
+        t = a["tree"]
+        sym = t.fields["_symbol"]
+        if not isinstance(r, SList):
+            raise Unsupported("_collapse does not return a list the contract can read")
+        if "seq" in r.ghost:
+            # the collapsed children are handed up: only for a helper nonterminal
+            return [("children_are_handed_up_only_for_a_helper_symbol", And(z3.BoolVal(cx.ghost["case"] == "nonterminal"), Helper(sym.ident))),
+                    ("result_is_free_of_helper_symbols", CleanSeq(r.ghost["seq"]))]
+        if not (r.concrete and len(r.items) == 1 and isinstance(r.items[0], SObj)):
+            raise Unsupported("_collapse returns neither the collected list nor a one-element list display")
+        new = r.items[0]
+        kids = kids_seq(new)
+        if kids is None:
+            raise Unsupported("the rebuilt node's children are not a sequence the contract can read")
+        keeps_symbol = same_obj(new.fields.get("_symbol"), sym) if not new.fields.get("_symbol") is sym else z3.BoolVal(True)
+        not_helper = Not(Helper(sym.ident)) if cx.ghost["case"] == "nonterminal" else z3.BoolVal(True)
+        return [("a_rebuilt_node_keeps_the_symbol", keeps_symbol),
+                ("a_rebuilt_node_is_not_a_helper", not_helper),
+                ("its_children_are_free_of_helper_symbols", CleanSeq(kids))]
